@@ -87,6 +87,14 @@ ApplyT(tr, e) == IF NoBce(tr) /\ e.t \in {"el", "ed", "ich"} THEN EraseNoBce(e) 
 Known == {"put", "zw", "cup", "bs", "cr", "lf", "cuu", "cud", "cuf", "cub", "sgr", "el", "ed", "ich", "irm", "so", "si",
           "desig", "decset", "resize", "frame", "clear"}
 
+\* A size change that overtakes a frame (event "interrupt": SIGWINCH delivered while the display was composing the frame, k rows
+\* into the canvas).  The frame was composed for a size the terminal no longer has: whatever the display still wrote for it (the
+\* tokens before this event) establishes nothing.  The terminal has the new size and unknown contents, exactly as after a size
+\* change between two frames, so the next frame is only accepted when it paints every cell.
+Interrupt(e) == Garble(Resize(term, e.w, e.h))
+ApplyI(tr, e) == IF e.t = "interrupt" THEN Interrupt(e) ELSE ApplyT(tr, e)
+KnownI == Known \cup {"interrupt"}
+
 Step == /\ ok
         /\ l < Len(Traces[tid].ev)
         /\ l' = l + 1
@@ -94,9 +102,9 @@ Step == /\ ok
         /\ LET e == Traces[tid].ev[l + 1]
                v == IF e.t = "frame" THEN FrameVerdict(Traces[tid], e)
                     ELSE IF e.t = "exc" THEN "draw_raised"
-                    ELSE IF e.t \notin Known THEN "unknown_control_sequence"
+                    ELSE IF e.t \notin KnownI THEN "unknown_control_sequence"
                     ELSE "-"
-           IN /\ term' = ApplyT(Traces[tid], e)
+           IN /\ term' = ApplyI(Traces[tid], e)
               /\ why' = v
               /\ ok' = (v = "-")
 Spec == Init /\ [][Step]_vars
